@@ -1,5 +1,5 @@
 (* C04_sound, RR sections: each field decoder of the parser model against RefDecode.ref_field. *)
-From CAres.Wire Require Import Cursor Cursor_proofs Name Name_proofs Record Parse Parse_proofs Escape Escape_proofs RefDecode Bits Name_ref Parse_ref Parse_ref2 Parse_sets.
+From CAres.Wire Require Import Cursor Cursor_proofs Name Name_proofs Record Parse Parse_proofs Escape Escape_proofs RefDecode Bits Name_ref Parse_ref Parse_ref2 Parse_sets Wnorm.
 From CAres.Gen Require Import Consts LeafFns Tables.
 Local Open Scope Z_scope.
 
@@ -577,7 +577,7 @@ Section Fields.
     exists o', c1 = at_ o' /\ pos_ok o' /\ rd <= o' /\
       (o' <= e -> exists r_ref ext x,
           ref_body bs name t cls ttl (Z.to_nat rd) rdl = Some (r_ref, Z.to_nat e, ext, x) /\
-          norm_rr r1 = norm_rr r_ref /\ rc' = rc_upd rc ext).
+          wnorm_rr r1 = wnorm_rr r_ref /\ rc' = rc_upd rc ext).
 
   Lemma e_nat : (Z.to_nat rd + Z.to_nat rdl)%nat = Z.to_nat e.
   Proof. posu. lia. Qed.
